@@ -6,6 +6,10 @@ _NOTE = ("Bounded: holds for all values within the bounds recorded in the eviden
 _TECH = "symbolic execution of the real Python code on z3-backed proxy values (BV64/Float64/Real), branch decisions and obligations decided by z3, counterexamples replayed concretely"
 
 CLAIMS = {
+    "C10": {
+        "text": "Bounded symbolic model checking of the API object model of both generations after the real handshake: status records with free bytes (restricted to protocol-defined values), timer, error and version frames arrive through the real receive path, in histories of 1-2 (quick) / 3 (thorough) frames with the last one free; a solver-enumerated index picks the entity and the public getter inspected, and z3 shows it equals the reference reading of the most recent frame about that entity (selected vs active mode/fan, limits by mode, spill/bypass, error details only with an error code and never stale, timers, version), that defined values are accepted without reset, and that unknown entity ids are ignored.",
+        "note": _NOTE, "technique": _TECH, "design_ref": "DESIGN.md section 6 C10",
+    },
     "C13": {
         "text": "Bounded symbolic model checking of the real _read loop over streams of 1-3 frames cut at up to three solver-chosen offsets: the reader stub compares 'delivered so far >= needed' symbolically, so each path is one class of cut positions relative to every read boundary (prefix, length field, payload, check bytes) and all split points are covered; on every path the delivered messages equal those of the unsegmented stream, once each, in order, without reset. Sampled path models are replayed on the real asyncio.StreamReader.",
         "note": _NOTE, "technique": _TECH, "design_ref": "DESIGN.md section 6 C13",
